@@ -21,6 +21,12 @@ CLAIMED = {
  "C13": ("runtime monitors on svg_pathops._do_pathop/remove_overlaps and the shape-level union/intersection/difference/SVGPath.remove_overlaps: point-sampled winding-number oracle over reference-flattened operands, result checked under both nonzero and evenodd; wrong answers reproduced by a direct engine call are attributed to skia-pathops (known finding)",
          "Every boolean operation executed by the workload is judged at ~120 points against the set combination of the operands under their own rules. Held-on-observed; sub-band-width defects are invisible.",
          "Trusts the winding-number oracle (ref/pathgeom.py) and its 0.4% exclusion band; PathOpsError counts as rejected.", "3/C13"),
+ "C18": ("runtime monitors on SVGShape.might_paint, SVGPath.remove_empty_subpaths (in the context of the whole path) and SVG.remove_unpainted_shapes/remove_empty_subpaths on generated documents, judged against a three-valued reference ground truth (interior disc under the fill rule / stroked segment of positive length)",
+         "Every might_paint answer and every pruning step executed by the workload is compared with an independent ground truth; only a False on a definitely-painting shape (or a changed rendering after pruning) is a violation, over-approximation is permitted. Held-on-observed.",
+         "Trusts ref/pathgeom.py winding numbers and the 0.5% clearance rule; sub-clearance slivers are 'unknown' and not judged.", "3/C18"),
+ "C20": ("runtime monitor on svg_reuse.affine_between: every reported transform is applied exactly to the first outline (reference interpretation) and compared command for command with the second within the tolerance; completeness for exact translations and identity for identical shapes",
+         "Every call made by the workload (exact images under 7 transform families, identical pairs, unrelated pairs, near-miss pairs 1.05-3x tolerance off, structure changes, basic shapes with arcs) is judged. Held-on-observed.",
+         "Trusts reusemon.tokens/verify (independent of svg_reuse). None is never a violation except for exact translations.", "3/C20"),
 }
 NOT_YET = "check not built yet in this session (build in progress; see DESIGN.md section 8 for the construction order)"
 
